@@ -290,8 +290,8 @@ mut("c12-all-drops-one-cube", "C12",
 mut("c12-minterm-off-by-one-mask", "C12",
     "Cube::minterm builds the variable mask one bit short for more than 8 variables",
     ("src/sop/cube.rs",
-     "        let tot = (1 << num_vars) - 1;",
-     "        let tot = if num_vars > 8 { (1 << (num_vars - 1)) - 1 } else { (1 << num_vars) - 1 };"))
+     "            (1 << num_vars) - 1\n        };",
+     "            if num_vars > 8 { (1 << (num_vars - 1)) - 1 } else { (1 << num_vars) - 1 }\n        };"))
 mut("c12-num-gates-zero-cube", "C12",
     "Cube::num_lits counts the literals of contradictory cubes built by from_mask",
     ("src/sop/cube.rs",
